@@ -215,7 +215,12 @@ func C18(c *ev.Ctx) {
 	compiled := 0
 	outRuns := 0
 	for i, d := range cases {
-		root := filepath.Join(c.Scratch, "tgdir", "semantics")
+		// the directory name is not always a plain word: brackets, stars and question marks are legal in file names
+		dirName := "semantics"
+		if i%4 == 3 {
+			dirName = []string{"semantics[v2]", "sem*ntics", "sem?ntics", "{semantics}"}[(i/4)%4]
+		}
+		root := filepath.Join(c.Scratch, "tgdir", dirName)
 		_ = os.RemoveAll(filepath.Dir(root))
 		_ = os.MkdirAll(root, 0755)
 		for _, f := range d {
@@ -306,7 +311,7 @@ func C18(c *ev.Ctx) {
 			}
 		}
 		// the generated Go file compiles against the package (sampled)
-		if len(wantL) > 0 && (compiled < c.Pick(3, 60) || tgMustCompile(d)) && tgCompilable(d) {
+		if len(wantL) > 0 && (compiled < c.Pick(3, 60) || tgMustCompile(d)) && tgCompilable(d) && dirName == "semantics" {
 			compiled++
 			if msg := tgCompile(c, root, goOut); msg != "" {
 				c.Violation("testgen.compile", "the generated Go test file does not compile against the package:\n"+msg, map[string]string{"dir.json": jsonStr(d), "go.out": goOut})
